@@ -385,37 +385,10 @@ func runBatch(c *vh.Ctx, jobs []job) batchStats {
 	return st
 }
 
-// classify names the known-finding class that accepts a failing case ("" = none).
-// G02-1 (root cause shared with F13: every csvSplitter writes p.fields): in CSV/TSV input mode a redirected or plain `getline`
-// replaces p.fields behind the back of p.fieldsIsTrueStr, and the next field access indexes out of range. The predicate: the
-// failure is an "index out of range" panic, the case reads in CSV/TSV mode, the program contains `getline`, and the same case in
-// default input mode does not panic. (F03 and F04 are fixed; F25 belongs to C13 and is not provoked here.)
-func classify(cs c02Case, o c02Out) string {
-	if !strings.Contains(o.Res.Panic, "index out of range") {
-		return ""
-	}
-	src := string(vh.Unhx(cs.Src))
-	if !strings.Contains(src, "getline") {
-		return ""
-	}
-	csv := cs.InMode != 0 || strings.Contains(src, "INPUTMODE")
-	for i := 0; i+1 < len(cs.Vars); i += 2 {
-		if string(vh.Unhx(cs.Vars[i])) == "INPUTMODE" {
-			csv = true
-		}
-	}
-	if !csv {
-		return ""
-	}
-	if cs.InMode != 0 {
-		plain := cs
-		plain.InMode = 0
-		if runCase(plain).Res.Panic != "" {
-			return ""
-		}
-	}
-	return "G02-1"
-}
+// classify names the known-finding class that accepts a failing case ("" = none). C02 has no recorded finding: F03, F04 and
+// G02-1 (CSV/TSV getline desynchronising p.fields, repaired with F13 in c7bccbd) are fixed and suppress nothing; F25 belongs to
+// C13 and is not provoked here.
+func classify(cs c02Case, o c02Out) string { return "" }
 
 // ---- the run ----------------------------------------------------------------------------------------------------------
 
@@ -829,13 +802,7 @@ func binarySample(c *vh.Ctx) {
 		c.OracleCase()
 		c.Hit("binary:run")
 		if strings.Contains(r.stderr, "panic:") || strings.Contains(r.stderr, "goroutine ") || strings.Contains(r.stderr, "fatal error:") {
-			finding := ""
-			src := cases[i].args[len(cases[i].args)-1]
-			if strings.Contains(r.stderr, "index out of range") && strings.Contains(src, "getline") &&
-				(strings.Contains(strings.Join(cases[i].args, " "), "-i csv") || strings.Contains(strings.Join(cases[i].args, " "), "-i tsv") || strings.Contains(src, "INPUTMODE")) {
-				finding = "G02-1"
-			}
-			c.Fail(vh.Failure{Kind: "oracle", What: "the goawk binary crashed with a Go trace", Finding: finding, Case: map[string]interface{}{"stream": "binary", "argv": cases[i].args, "stdin_hex": vh.HxS(cases[i].stdin)},
+			c.Fail(vh.Failure{Kind: "oracle", What: "the goawk binary crashed with a Go trace", Case: map[string]interface{}{"stream": "binary", "argv": cases[i].args, "stdin_hex": vh.HxS(cases[i].stdin)},
 				Got: fmt.Sprintf("exit %d: %s", r.status, r.stderr), Want: "exit status and at most an error message"})
 		}
 	}
